@@ -361,7 +361,7 @@ const (
 type coll struct {
 	name  string
 	kind  int
-	ids   []document.DocumentID // abstract id - 1 -> document id
+	ids   []string // abstract id - 1 -> document id (hex)
 	byHex map[string]int
 	auto  map[string]bool // cf: single-field indexes created by the harness
 }
@@ -375,8 +375,8 @@ type run struct {
 	b      *behaviour
 	cl     *class
 	dir    string
-	st     *store.ImmuStore
-	e      *document.Engine
+	a      api
+	viaDB  bool
 	colls  []*coll
 	prev   *stT // abstract collection before the step
 	cnt    map[string]int
@@ -399,32 +399,26 @@ func storeOpts() *store.Options {
 }
 
 func (r *run) open() error {
-	st, err := store.Open(r.dir, storeOpts())
-	if err != nil {
-		return err
+	var err error
+	if r.viaDB {
+		r.a, err = openDB(r.dir, r)
+	} else {
+		r.a, err = openEngine(r.dir)
 	}
-	e, err := document.NewEngine(st, document.DefaultOptions().WithPrefix([]byte{3}))
-	if err != nil {
-		st.Close()
-		return err
-	}
-	r.st, r.e = st, e
-	return nil
+	return err
 }
 func (r *run) close() error {
-	if r.st == nil {
+	if r.a == nil {
 		return nil
 	}
-	err := r.st.Close()
-	r.st, r.e = nil, nil
+	err := r.a.Close()
+	r.a = nil
 	return err
 }
 
 // all indexes caught up with the last committed transaction (the engine's write paths use possibly stale index
 // snapshots; replays are sequential and deterministic, the race is exercised by the probe)
-func (r *run) settle() {
-	vh.Must(r.st.WaitForIndexingUpto(ctx, r.st.LastPrecommittedTxID()), "WaitForIndexingUpto")
-}
+func (r *run) settle() { r.a.Settle() }
 
 func (r *run) violate(sig, text string, detail map[string]interface{}) {
 	r.vs = append(r.vs, &violation{sig: sig, text: text, detail: detail})
@@ -462,8 +456,8 @@ var unknownID = "00112233445566778899aabbccddeeff"
 
 func (r *run) cmpValue(c *coll, cm cmpT, parity int) *structpb.Value {
 	if cm.F == "_id" {
-		if cm.C >= 1 && cm.C <= len(c.ids) && c.ids[cm.C-1] != nil {
-			return structpb.NewStringValue(c.ids[cm.C-1].EncodeToHexString())
+		if cm.C >= 1 && cm.C <= len(c.ids) {
+			return structpb.NewStringValue(c.ids[cm.C-1])
 		}
 		return structpb.NewStringValue(unknownID)
 	}
@@ -482,11 +476,11 @@ var opOf = map[string]protomodel.ComparisonOperator{"EQ": protomodel.ComparisonO
 
 func (r *run) query(c *coll, q [][]cmpT, ob []ordT, lim int) *protomodel.Query {
 	pq := &protomodel.Query{CollectionName: c.name, Limit: uint32(lim)}
-	for gi, g := range q {
+	for _, g := range q {
 		ex := &protomodel.QueryExpression{}
-		for xi, cm := range g {
-			f := cm.F
-			ex.FieldComparisons = append(ex.FieldComparisons, &protomodel.FieldComparison{Field: f, Operator: opOf[cm.Op], Value: r.cmpValue(c, cm, r.si+gi+xi)})
+		for _, cm := range g {
+			// (the sign of a zero constant depends on the step only: the selection check of a write and the write use the same constants)
+			ex.FieldComparisons = append(ex.FieldComparisons, &protomodel.FieldComparison{Field: cm.F, Operator: opOf[cm.Op], Value: r.cmpValue(c, cm, r.si)})
 		}
 		pq.Expressions = append(pq.Expressions, ex)
 	}
@@ -504,7 +498,7 @@ type hit struct {
 
 func (r *run) search(c *coll, pq *protomodel.Query, off int) ([]hit, error) {
 	r.nquery++
-	rd, err := r.e.GetDocuments(ctx, pq, int64(off))
+	rd, err := r.a.Search(pq, off)
 	if err != nil {
 		return nil, err
 	}
@@ -529,7 +523,7 @@ func (r *run) search(c *coll, pq *protomodel.Query, off int) ([]hit, error) {
 func (r *run) expDoc(c *coll, st *stT, id int) *structpb.Struct {
 	d := st.Docs[id-1]
 	s := r.cl.doc(d.Vals, d.Stamp)
-	s.Fields[document.DefaultDocumentIDField] = structpb.NewStringValue(c.ids[id-1].EncodeToHexString())
+	s.Fields[document.DefaultDocumentIDField] = structpb.NewStringValue(c.ids[id-1])
 	return s
 }
 
@@ -576,12 +570,17 @@ func (r *run) classify(st *stT, q [][]cmpT, ob []ordT, differ bool) string {
 			}
 		}
 	}
-	if differ {
-		for _, f := range fields {
-			if f != "_id" && typeOf(f) == "DOUBLE" && r.cl.negzero {
-				return "Search:index-on-DOUBLE-field:negative-zero-not-found-by-zero"
+	if r.cl.negzero {
+		// a comparison of a DOUBLE field with the constant zero (written 0.0 or -0.0)
+		for _, g := range q {
+			for _, cm := range g {
+				if cm.F != "_id" && typeOf(cm.F) == "DOUBLE" && cm.C > 0 && r.cl.dbls[cm.C] == 0 {
+					return "Search:index-on-DOUBLE-field:negative-zero-not-found-by-zero"
+				}
 			}
 		}
+	}
+	if differ {
 		return "Search:result-depends-on-indexes"
 	}
 	ops := map[string]bool{}
@@ -656,7 +655,7 @@ func (r *run) checkSearch(st *stT, what string, q [][]cmpT, ob []ordT, off, lim 
 			o.bad = fmt.Sprintf("%d documents returned, %d expected", len(hits), len(res))
 		}
 		if o.bad == "" && withCount {
-			n, err := r.e.CountDocuments(ctx, pq, 0)
+			n, err := r.a.Count(pq)
 			r.nquery++
 			if err != nil {
 				o.bad = "CountDocuments: " + err.Error()
@@ -688,6 +687,8 @@ func (r *run) checkSearch(st *stT, what string, q [][]cmpT, ob []ordT, off, lim 
 		strings.Join(parts, "; ")), det)
 	return false
 }
+
+var osStat = os.Stat
 
 func contains(l []int, x int) bool {
 	for _, y := range l {
@@ -771,10 +772,9 @@ func decodeRow(enc []byte) (*structpb.Struct, error) {
 func (r *run) checkGet(st *stT, id int, what string) bool {
 	ok := true
 	for _, c := range r.colls {
-		if id > len(c.ids) || c.ids[id-1] == nil {
+		if id > len(c.ids) {
 			// never inserted: a lookup of an unknown id must not find anything
-			uid, _ := document.NewDocumentIDFromHexEncodedString(unknownID)
-			_, _, _, err := r.e.GetEncodedDocument(ctx, c.name, uid, 0)
+			_, _, err := r.a.Get(c.name, unknownID)
 			if !errors.Is(err, document.ErrDocumentNotFound) {
 				r.violate("GetById:unknown-id:found", fmt.Sprintf("%s: lookup of an id that was never generated returned %v", what, err), nil)
 				ok = false
@@ -782,7 +782,7 @@ func (r *run) checkGet(st *stT, id int, what string) bool {
 			continue
 		}
 		d := st.Docs[id-1]
-		_, _, enc, err := r.e.GetEncodedDocument(ctx, c.name, c.ids[id-1], 0)
+		got, rev, err := r.a.Get(c.name, c.ids[id-1])
 		if !d.Live {
 			if !errors.Is(err, document.ErrDocumentNotFound) {
 				r.violate("GetById:deleted-document:returned", fmt.Sprintf("%s: %s: lookup of deleted document %d: %v", what, c.name, id, err), map[string]interface{}{"doc": id})
@@ -795,15 +795,14 @@ func (r *run) checkGet(st *stT, id int, what string) bool {
 			ok = false
 			continue
 		}
-		got, derr := decodeRow(enc.EncodedDocument)
-		if derr != nil || !eqStruct(got, r.expDoc(c, st, id)) {
-			r.violate("GetById:stored-document:returned-altered", fmt.Sprintf("%s: %s (class %s): document %d: got %s (%v), stored %s", what, c.name, r.cl.name, id,
-				compactOrNil(got), derr, compact(r.expDoc(c, st, id))), map[string]interface{}{"doc": id})
+		if !eqStruct(got, r.expDoc(c, st, id)) {
+			r.violate("GetById:stored-document:returned-altered", fmt.Sprintf("%s: %s (class %s): document %d: got %s, stored %s", what, c.name, r.cl.name, id,
+				compactOrNil(got), compact(r.expDoc(c, st, id))), map[string]interface{}{"doc": id})
 			ok = false
 			continue
 		}
-		if int(enc.Revision) != d.N {
-			r.violate("GetById:revision-number", fmt.Sprintf("%s: %s: document %d has revision %d, lookup says %d", what, c.name, id, d.N, enc.Revision), map[string]interface{}{"doc": id})
+		if int(rev) != d.N {
+			r.violate("GetById:revision-number", fmt.Sprintf("%s: %s: document %d has revision %d, lookup says %d", what, c.name, id, d.N, rev), map[string]interface{}{"doc": id})
 			ok = false
 		}
 	}
@@ -819,7 +818,11 @@ func compactOrNil(s *structpb.Struct) string {
 func (r *run) checkAudit(id int, desc bool, off, lim int, exp []auditE, what string) bool {
 	ok := true
 	for _, c := range r.colls {
-		revs, err := r.e.AuditDocument(ctx, c.name, c.ids[id-1], desc, uint64(off), lim, true)
+		revs, err := r.a.Audit(c.name, c.ids[id-1], desc, off, lim)
+		if errors.Is(err, errNotPageAligned) {
+			r.count("audit:not-page-aligned-skipped")
+			continue
+		}
 		if err != nil && len(exp) == 0 {
 			continue // an offset at or beyond the number of revisions: an error or an empty page
 		}
@@ -838,11 +841,11 @@ func (r *run) checkAudit(id int, desc bool, off, lim int, exp []auditE, what str
 					bad = fmt.Sprintf("revision %d: deleted=%v, expected %v", e.Rev, g.GetMetadata().GetDeleted(), e.Del)
 				case e.Del && g.Document != nil && len(g.Document.Fields) > 0:
 					bad = fmt.Sprintf("revision %d is a deletion but carries a document", e.Rev)
-				case g.DocumentId != c.ids[id-1].EncodeToHexString():
+				case g.DocumentId != c.ids[id-1]:
 					bad = fmt.Sprintf("revision %d carries id %s", e.Rev, g.DocumentId)
 				case !e.Del:
 					want := r.cl.doc(e.Vals, e.Stamp)
-					want.Fields[document.DefaultDocumentIDField] = structpb.NewStringValue(c.ids[id-1].EncodeToHexString())
+					want.Fields[document.DefaultDocumentIDField] = structpb.NewStringValue(c.ids[id-1])
 					if !eqStruct(g.Document, want) {
 						bad = fmt.Sprintf("revision %d altered: got %s stored %s", e.Rev, compactOrNil(g.Document), compact(want))
 					}
@@ -946,6 +949,24 @@ func (r *run) checkState(st *stT, what string, full bool) bool {
 
 // ---- schema helpers
 
+// the content has the value zero in a DOUBLE field of a unique index, in the class that writes zero as 0.0 and -0.0
+func (r *run) negzeroKey(st *stT, vals map[string]int) bool {
+	if !r.cl.negzero || st == nil {
+		return false
+	}
+	for _, x := range st.Ix {
+		if !x.Uq {
+			continue
+		}
+		for _, f := range x.Fs {
+			if v := vals[f]; typeOf(f) == "DOUBLE" && v > 0 && r.cl.dbls[v] == 0 {
+				return true
+			}
+		}
+	}
+	return false
+}
+
 func fsKey(fs []string) string { return strings.Join(fs, ",") }
 
 func (r *run) hasIndex(st *stT, fs []string) (bool, bool) {
@@ -1007,7 +1028,7 @@ func (r *run) exec(s *step) {
 					}
 				}
 			}
-			if err := r.e.CreateCollection(ctx, "c19", c.name, "", fields, ixs); err != nil {
+			if err := r.a.CreateCollection(c.name, fields, ixs); err != nil {
 				r.violate("CreateCollection:unexpected-error", fmt.Sprintf("%s: %s: %v", what, c.name, err), nil)
 				r.stop = "violation"
 				return
@@ -1015,9 +1036,9 @@ func (r *run) exec(s *step) {
 		}
 	case "addfield":
 		for _, c := range r.colls {
-			err := r.e.AddField(ctx, "c19", c.name, &protomodel.Field{Name: s.F, Type: protoType(s.F)})
+			err := r.a.AddField(c.name, &protomodel.Field{Name: s.F, Type: protoType(s.F)})
 			if err == nil && c.kind == kindFull {
-				err = r.e.CreateIndex(ctx, "c19", c.name, []string{s.F}, false)
+				err = r.a.CreateIndex(c.name, []string{s.F}, false)
 				c.auto[s.F] = true
 			}
 			if err != nil {
@@ -1035,10 +1056,10 @@ func (r *run) exec(s *step) {
 				continue // the index that needs the column exists in cs (and is not the harness's business elsewhere)
 			}
 			if s.Ok && c.kind == kindFull && c.auto[s.F] {
-				vh.Must(r.e.DeleteIndex(ctx, "c19", c.name, []string{s.F}), "delete auto index")
+				vh.Must(r.a.DeleteIndex(c.name, []string{s.F}), "delete auto index")
 				delete(c.auto, s.F)
 			}
-			err := r.e.RemoveField(ctx, "c19", c.name, s.F)
+			err := r.a.RemoveField(c.name, s.F)
 			if (err == nil) != s.Ok {
 				r.count("stopped:decision-differs:removefield")
 				r.stop = fmt.Sprintf("RemoveField(%s) on %s: %v, the model says ok=%v", s.F, c.name, err, s.Ok)
@@ -1061,15 +1082,15 @@ func (r *run) exec(s *step) {
 			}
 			dropped := false
 			if c.kind == kindFull && len(x.Fs) == 1 && c.auto[x.Fs[0]] {
-				vh.Must(r.e.DeleteIndex(ctx, "c19", c.name, x.Fs), "delete auto index")
+				vh.Must(r.a.DeleteIndex(c.name, x.Fs), "delete auto index")
 				delete(c.auto, x.Fs[0])
 				dropped = true
 			}
-			err := r.e.CreateIndex(ctx, "c19", c.name, x.Fs, x.Uq)
+			err := r.a.CreateIndex(c.name, x.Fs, x.Uq)
 			real = append(real, err == nil)
 			r.count("createindex:" + errClass(err))
 			if err != nil && dropped {
-				vh.Must(r.e.CreateIndex(ctx, "c19", c.name, x.Fs, false), "re-create auto index")
+				vh.Must(r.a.CreateIndex(c.name, x.Fs, false), "re-create auto index")
 				c.auto[x.Fs[0]] = true
 			}
 		}
@@ -1103,22 +1124,22 @@ func (r *run) exec(s *step) {
 			if c.kind == kindNone && !x.Uq {
 				continue
 			}
-			if err := r.e.DeleteIndex(ctx, "c19", c.name, x.Fs); err != nil {
+			if err := r.a.DeleteIndex(c.name, x.Fs); err != nil {
 				r.violate("DeleteIndex:unexpected-error", fmt.Sprintf("%s: %s: %v", what, c.name, err), nil)
 				r.stop = "violation"
 				return
 			}
 			if c.kind == kindFull && len(x.Fs) == 1 {
-				vh.Must(r.e.CreateIndex(ctx, "c19", c.name, x.Fs, false), "create auto index")
+				vh.Must(r.a.CreateIndex(c.name, x.Fs, false), "create auto index")
 				c.auto[x.Fs[0]] = true
 			}
 		}
 	case "insert":
 		want := *s.Want
 		var real []bool
-		var ids []document.DocumentID
+		var ids []string
 		for _, c := range r.colls {
-			_, id, err := r.e.InsertDocument(ctx, "c19", c.name, r.cl.doc(s.Vals, s.Stamp))
+			id, err := r.a.Insert(c.name, r.cl.doc(s.Vals, s.Stamp))
 			r.count("insert:" + errClass(err))
 			if err != nil && !errors.Is(err, document.ErrConflict) {
 				r.violate("InsertDocument:unexpected-error", fmt.Sprintf("%s: %s (class %s): %v", what, c.name, r.cl.name, err), nil)
@@ -1139,6 +1160,8 @@ func (r *run) exec(s *step) {
 			cls := "other"
 			if s.Ok {
 				cls = "first-index-entry-of-the-key-is-a-deletion-mark"
+			} else if r.negzeroKey(r.prev, s.Vals) {
+				cls = "negative-zero-and-zero-are-different-keys"
 			}
 			r.violate("InsertDocument:unique-index:duplicate-admitted:"+cls,
 				fmt.Sprintf("%s: a document with the key of a live document was accepted by the unique index (class %s)", what, r.cl.name), nil)
@@ -1157,7 +1180,7 @@ func (r *run) exec(s *step) {
 		if real[0] {
 			for ci, c := range r.colls {
 				c.ids = append(c.ids, ids[ci])
-				c.byHex[ids[ci].EncodeToHexString()] = len(c.ids)
+				c.byHex[ids[ci]] = len(c.ids)
 			}
 		}
 	case "replace", "delete":
@@ -1183,7 +1206,7 @@ func (r *run) exec(s *step) {
 		for _, c := range r.colls {
 			pq := r.query(c, s.Q, s.Ob, s.Lim)
 			if s.Op == "delete" {
-				if err := r.e.DeleteDocuments(ctx, "c19", pq); err != nil {
+				if err := r.a.Delete(pq); err != nil {
 					r.violate("DeleteDocuments:unexpected-error", fmt.Sprintf("%s: %s: %v", what, c.name, err), nil)
 					r.stop = "violation"
 					return
@@ -1192,9 +1215,9 @@ func (r *run) exec(s *step) {
 			}
 			d := r.cl.doc(s.Vals, s.Stamp)
 			if s.Byid > 0 {
-				d.Fields[document.DefaultDocumentIDField] = structpb.NewStringValue(c.ids[s.Byid-1].EncodeToHexString())
+				d.Fields[document.DefaultDocumentIDField] = structpb.NewStringValue(c.ids[s.Byid-1])
 			}
-			revs, err := r.e.ReplaceDocuments(ctx, "c19", pq, d)
+			revs, err := r.a.Replace(pq, d)
 			r.count("replace:" + errClass(err))
 			if err != nil && !errors.Is(err, document.ErrConflict) {
 				r.violate("ReplaceDocuments:unexpected-error", fmt.Sprintf("%s: %s (class %s): %v", what, c.name, r.cl.name, err), nil)
@@ -1203,7 +1226,11 @@ func (r *run) exec(s *step) {
 			}
 			if (err == nil) != s.Ok {
 				if err == nil {
-					r.violate("ReplaceDocuments:unique-index:duplicate-admitted", fmt.Sprintf("%s: %s: replacement creates a duplicate key of a unique index and was accepted", what, c.name), nil)
+					cls := "other"
+					if r.negzeroKey(r.prev, s.Vals) {
+						cls = "negative-zero-and-zero-are-different-keys"
+					}
+					r.violate("ReplaceDocuments:unique-index:duplicate-admitted:"+cls, fmt.Sprintf("%s: %s (class %s): replacement creates a duplicate key of a unique index and was accepted", what, c.name, r.cl.name), nil)
 				} else {
 					r.count("replace:rejected-where-the-design-accepts")
 				}
@@ -1268,10 +1295,10 @@ func (r *run) exec(s *step) {
 func isRead(op string) bool { return op == "search" || op == "audit" || op == "get" }
 
 // replays behaviour b under class cl in dir; returns violations (with the step they occurred at), counters, steps done
-func runOne(b *behaviour, cl *class, dir string) (vs []*violation, cnt map[string]int, steps int, queries int, stopped string) {
+func runOne(b *behaviour, cl *class, dir string, viaDB bool) (vs []*violation, cnt map[string]int, steps int, queries int, stopped string) {
 	os.RemoveAll(dir)
 	vh.Must(os.MkdirAll(dir, 0o755), "mkdir")
-	r := &run{b: b, cl: cl, dir: dir, cnt: map[string]int{}}
+	r := &run{b: b, cl: cl, dir: dir, cnt: map[string]int{}, viaDB: viaDB}
 	for i, n := range []string{"cs", "cn", "cf"} {
 		r.colls = append(r.colls, &coll{name: n, kind: i, byHex: map[string]int{}, auto: map[string]bool{}})
 	}
@@ -1439,26 +1466,31 @@ func main() {
 		w = 1
 	}
 	type job struct {
-		bi int
-		cl *class
+		bi    int
+		cl    *class
+		viaDB bool
 	}
 	var jobs []job
 	for bi := range f.Behaviours {
 		if *only != "" {
 			for _, c := range cls {
 				if strings.Contains(","+*only+",", ","+c.name+",") {
-					jobs = append(jobs, job{bi, c})
+					jobs = append(jobs, job{bi, c, false})
 				}
 			}
 			continue
 		}
 		if *all {
 			for _, c := range cls {
-				jobs = append(jobs, job{bi, c})
+				jobs = append(jobs, job{bi, c, false})
 			}
 			continue
 		}
-		jobs = append(jobs, job{bi, cls[0]}, job{bi, cls[1+(bi+int(*seed))%(len(cls)-1)]})
+		jobs = append(jobs, job{bi, cls[0], false}, job{bi, cls[1+(bi+int(*seed))%(len(cls)-1)], false})
+	}
+	// through pkg/database (document API of a database, proofs): the first -db behaviours, classes rotating
+	for bi := 0; bi < *dbMode && bi < len(f.Behaviours); bi++ {
+		jobs = append(jobs, job{bi, cls[(bi+int(*seed))%len(cls)], true})
 	}
 	if len(jobs) == 0 {
 		vh.Fatalf("nothing to replay")
@@ -1479,7 +1511,7 @@ func main() {
 				var steps, queries int
 				var stopped string
 				panicked, hung, msg := vh.Guard(10*time.Minute, func() {
-					vs, cnt, steps, queries, stopped = runOne(b, j.cl, filepath.Join(*dir, fmt.Sprintf("w%d", wi)))
+					vs, cnt, steps, queries, stopped = runOne(b, j.cl, filepath.Join(*dir, fmt.Sprintf("w%d", wi)), j.viaDB)
 				})
 				if panicked || hung {
 					vh.Fatalf("replay of behaviour %d (%s) class %s: %s", j.bi, b.Origin, j.cl.name, msg)
@@ -1492,6 +1524,9 @@ func main() {
 				}
 				res.Count("queries", queries)
 				res.Count("class:"+j.cl.name, 1)
+				if j.viaDB {
+					res.Count("replays:through-pkg-database", 1)
+				}
 				switch {
 				case stopped == "":
 					complete++
@@ -1513,8 +1548,12 @@ func main() {
 						stepNo = len(b.Ops)
 					}
 					v.detail["class"] = j.cl.name
+					v.detail["via"] = map[bool]string{false: "embedded/document.Engine", true: "pkg/database"}[j.viaDB]
 					v.detail["origin"] = b.Origin
 					v.detail["behaviour"] = &behaviour{Ops: b.Ops[:stepNo], K: b.K, Fields: b.Fields, Origin: b.Origin}
+					if strings.HasPrefix(b.Origin, "tlc-counterexample") {
+						res.Count("reproduced:"+b.Origin, 1)
+					}
 					res.Violate(v.sig, v.text, v.detail)
 				}
 				if len(vs) == 0 && stopped == "" {
@@ -1532,8 +1571,5 @@ func main() {
 	res.Count("replays:stopped-at-violation", stoppedViol)
 	res.Count("replays:stopped-decision-differs", stoppedDrift)
 	res.Distinct = len(distinct)
-	if *dbMode > 0 {
-		runDB(f.Behaviours, *dbMode, filepath.Join(*dir, "db"), cls, res)
-	}
 	res.Emit()
 }
